@@ -149,6 +149,12 @@ func monitor(prop string, h *History, res *common.Result) {
 					}
 				}
 			}
+			// a failing Renew does not even restart a lock's idle period (a failing Unlock with a wrong key on an
+			// existing lock is an access and may; Renew never looks at the lock table): it cannot postpone a collection
+			if failed && s.Before != nil && s.Op.Kind == "renew" && s.Before.T != v.T {
+				viol(res, prop, "seq:inert:idle-clock", fmt.Sprintf("%q failed with %s but restarted the idle period of a lock (lock table with last-access times: %q → %q): the failing request postpones the collection of that lock", s.Op.Line(), s.Resp.Err, s.Before.T, v.T), h, i, nil)
+				return
+			}
 			// a successful Unlock / Renew / admin unlock leaves every OTHER hold's bookkeeping entry alone
 			if (s.Op.Kind == "unlock" || s.Op.Kind == "renew" || s.Op.Kind == "ipcunlock") && s.Resp.Ok && s.Before != nil {
 				k := s.Op.Key
@@ -289,6 +295,11 @@ func monitor(prop string, h *History, res *common.Result) {
 						return
 					}
 				}
+			}
+			// the listing the admin tool shows (LockServer.Locks()) is the bookkeeping of the sessions, flattened
+			if at, st := strings.Join(v.Admin, " "), strings.Join(holdsOfListing(v), " "); at != st {
+				viol(res, prop, "seq:views:admin-listing-vs-bookkeeping", fmt.Sprintf("after %q LockServer.Locks() - what `ldlm-lock list` shows - is {%s} but the sessions' bookkeeping (and the state file written from it) is {%s}", s.Op.Line(), at, st), h, i, nil)
+				return
 			}
 			sig := ""
 			if noclearDisc {
